@@ -42,7 +42,8 @@ def kvNat (args : List String) (name : String) (dflt : Nat) : Nat :=
 structure St where
   blobs : Std.HashMap Nat Bytes := {}
   ctab : List (Nat × Bytes × Bytes) := []          -- (algorithm, raw, stored) pairs observed from the library
-  writers : Std.HashMap Nat W := {}
+  writers : Std.HashMap Nat (W × Bytes) := {}     -- writer state and the foreign prefix bytes
+  wadds : Std.HashMap Nat (List Entry) := {}      -- every add call so far (newest first), replayed at w.fin once the compression table is known
   readers : Std.HashMap Nat Rd := {}
   riters : Std.HashMap Nat (Option RIter) := {}    -- none = NULL iterator
   fixF1 : Bool := true
@@ -67,56 +68,8 @@ def parseKind (args : List String) : Option (Kind × Option Bytes) :=
     | _, _ => none
   | _ => none
 
-def step (s : St) (line : String) : St × String :=
+def stepMore (s : St) (line : String) : St × String :=
   match line.trimAscii.toString.splitOn " " with
-  | ["cfg", "fixF1", v] => ({ s with fixF1 := v == "1" }, "ok")
-  | ["cfg", "fixF9", v] => ({ s with fixF9 := v == "1" }, "ok")
-  | ["blob", id, h] =>
-    match id.toNat?, unhex h with
-    | some i, some b => ({ s with blobs := s.blobs.insert i b }, "ok")
-    | _, _ => (s, "bad-op")
-  | ["ctab", algo, raw, stored] =>
-    match algo.toNat?, unhex raw, unhex stored with
-    | some a, some r, some st => ({ s with ctab := (a, r, st) :: s.ctab }, "ok")
-    | _, _, _ => (s, "bad-op")
-  | "w.new" :: id :: args =>
-    match id.toNat? with
-    | some i =>
-      let algo := kvNat args "comp" 0
-      let ctab := s.ctab
-      let cfg : WCfg := { compression := algo, blockSize := kvNat args "bs" 8192,
-                          interval := kvNat args "ri" 16, minBlockSize := kvNat args "minbs" 1024,
-                          thr := kvNat args "thr" 4294967295, comp := compOf ctab algo }
-      ({ s with writers := s.writers.insert i (W.new cfg (kvNat args "pre" 0)) }, "ok")
-    | none => (s, "bad-op")
-  | ["w.add", id, k, v] =>
-    match id.toNat?, unhex k, unhex v with
-    | some i, some k, some v =>
-      match s.writers[i]? with
-      | some w =>
-        let (r, w') := w.add k v
-        if w'.aborted then ({ s with writers := s.writers.insert i w' }, "abort")
-        else ({ s with writers := s.writers.insert i w' }, if r == .success then "ok" else "fail")
-      | none => (s, "bad-op")
-    | _, _, _ => (s, "bad-op")
-  | ["w.fin", id] =>
-    match id.toNat? with
-    | some i => match s.writers[i]? with
-      | some w => if (w.flush).aborted then (s, "abort") else (s, "file " ++ hex w.finish)
-      | none => (s, "bad-op")
-    | none => (s, "bad-op")
-  | "r.open" :: id :: bid :: args =>
-    match id.toNat?, bid.toNat? with
-    | some i, some b => match s.blobs[b]? with
-      | some file =>
-        let ctab := s.ctab
-        match readerOpen s.fixF9 (kvNat args "thr" 4294967295) (decompOf ctab) (kvNat args "verify" 0 == 1) file with
-        | .null => (s, "null")
-        | .abort _ => (s, "abort")
-        | .oob _ => (s, "oob")
-        | .ok r => ({ s with readers := s.readers.insert i r }, "ok " ++ metaStr r.m)
-      | none => (s, "bad-op")
-    | _, _ => (s, "bad-op")
   | "r.it" :: rid :: iid :: kargs =>
     match rid.toNat?, iid.toNat?, parseKind kargs with
     | some r, some i, some (kind, seekTo) => match s.readers[r]? with
@@ -155,11 +108,81 @@ def step (s : St) (line : String) : St × String :=
   | ["reset"] => ({ fixF1 := s.fixF1, fixF9 := s.fixF9 }, "ok")
   | _ => (s, "bad-op")
 
+def step (s : St) (line : String) : St × String :=
+  match line.trimAscii.toString.splitOn " " with
+  | ["cfg", "fixF1", v] => ({ s with fixF1 := v == "1" }, "ok")
+  | ["cfg", "fixF9", v] => ({ s with fixF9 := v == "1" }, "ok")
+  | ["blob", id, h] =>
+    match id.toNat?, unhex h with
+    | some i, some b => ({ s with blobs := s.blobs.insert i b }, "ok")
+    | _, _ => (s, "bad-op")
+  | ["ctab", algo, raw, stored] =>
+    match algo.toNat?, unhex raw, unhex stored with
+    | some a, some r, some st => ({ s with ctab := (a, r, st) :: s.ctab }, "ok")
+    | _, _, _ => (s, "bad-op")
+  | "w.new" :: id :: args =>
+    match id.toNat? with
+    | some i =>
+      let algo := kvNat args "comp" 0
+      let cfg : WCfg := { compression := algo, blockSize := kvNat args "bs" 8192,
+                          interval := kvNat args "ri" 16, minBlockSize := kvNat args "minbs" 1024,
+                          thr := kvNat args "thr" 4294967295, comp := some }
+      match unhex ((kv args "pre").getD "-") with
+      | some pre => ({ s with writers := s.writers.insert i (W.new cfg pre.length, pre) }, "ok")
+      | none => (s, "bad-op")
+    | none => (s, "bad-op")
+  | ["w.add", id, k, v] =>
+    match id.toNat?, unhex k, unhex v with
+    | some i, some k, some v =>
+      match s.writers[i]? with
+      | some (w, pre) =>
+        let (r, w') := w.add k v
+        let s := { s with wadds := s.wadds.insert i ({ key := k, val := v } :: (s.wadds[i]?).getD []) }
+        if w'.aborted then ({ s with writers := s.writers.insert i (w', pre) }, "abort")
+        else ({ s with writers := s.writers.insert i (w', pre) }, if r == .success then "ok" else "fail")
+      | none => (s, "bad-op")
+    | _, _, _ => (s, "bad-op")
+  | ["w.fin", id] =>
+    match id.toNat? with
+    | some i => match s.writers[i]? with
+      | some (w0, pre) =>
+        -- replay with the compression oracle table observed from the library
+        let ctab := s.ctab
+        let cfg := { w0.cfg with comp := compOf ctab w0.cfg.compression }
+        let w := ((W.new cfg pre.length).addAll ((s.wadds[i]?).getD []).reverse).2
+        if (w.flush).aborted then (s, "abort")
+        else ({ s with writers := s.writers.insert i (w, pre) }, "file " ++ hex w.finish)
+      | none => (s, "bad-op")
+    | none => (s, "bad-op")
+  | ["w.prefix", id] =>
+    match id.toNat? with
+    | some i => match s.writers[i]? with
+      | some (_, pre) => (s, "pre " ++ hex pre)
+      | none => (s, "bad-op")
+    | none => (s, "bad-op")
+  | opn :: id :: bid :: args =>
+    if opn != "r.openw" && opn != "r.openb" then stepMore s line else
+    match id.toNat?, bid.toNat? with
+    | some i, some b =>
+      let file? := if opn == "r.openb" then s.blobs[b]? else (s.writers[b]?).map fun (w, pre) => pre ++ w.finish
+      match file? with
+      | some file =>
+        let ctab := s.ctab
+        match readerOpen s.fixF9 (kvNat args "thr" 4294967295) (decompOf ctab) (kvNat args "verify" 0 == 1) file with
+        | .null => (s, "null")
+        | .abort _ => (s, "abort")
+        | .oob _ => (s, "oob")
+        | .ok r => ({ s with readers := s.readers.insert i r }, "ok " ++ metaStr r.m)
+      | none => (s, "bad-op")
+    | _, _ => (s, "bad-op")
+  | _ => stepMore s line
+
 partial def loop (h : IO.FS.Stream) (out : IO.FS.Stream) (s : St) : IO Unit := do
   let line ← h.getLine
   if line.isEmpty then return ()
   let (s', reply) := step s line
   out.putStrLn reply
+  out.flush
   loop h out s'
 
 end Drv
